@@ -2,10 +2,12 @@ module verifharness
 
 go 1.20
 
-require github.com/elastos/Elastos.ELA v0.0.0
+require (
+	github.com/btcsuite/btcd v0.23.2
+	github.com/elastos/Elastos.ELA v0.0.0
+)
 
 require (
-	github.com/btcsuite/btcd v0.23.2 // indirect
 	github.com/btcsuite/btcd/chaincfg/chainhash v1.0.1 // indirect
 	github.com/go-echarts/go-echarts/v2 v2.2.3 // indirect
 	github.com/go-echarts/statsview v0.3.4 // indirect
